@@ -149,13 +149,56 @@ def a3_rules_can_fail(F, r):
         raise AnchorError(f"only {n} leaf rules")
 
 
+def partial_order_sites(F, module_prefixes):
+    """calls of the PARTIAL order of multi-dimensional loads (lt/le/gt/ge/partial_cmp on MultiDimLoad or a load-generic T) in the given modules"""
+    out = []
+    for fid, fn in F.fns.items():
+        if "::promoted[" in fid:
+            continue
+        root = F.root_of(fid)
+        mod = F.fns.get(root, fn)["module"]
+        if not mod.startswith(module_prefixes):
+            continue
+        for bi, t in mir.calls(fn):
+            if not t["callee"].startswith("core::cmp::PartialOrd::"):
+                continue
+            ga = t["ga"]
+            if not ga:
+                continue
+            g0 = ga[0]
+            if g0.endswith("::MultiDimLoad") or (len(g0) <= 2 and g0.isupper() and ("Load" in " ".join(fn["locals"]) or "load" in mod or "reload" in mod or "capacity" in mod)):
+                out.append((root, fid, t["callee"].split("::")[-1], g0.split("::")[-1], t["ln"]))
+    return out
+
+
+def a4_componentwise_capacity(F, r):
+    sites = partial_order_sites(F, (CHK,))
+    fits = [1 for fid, fn in F.fns.items() if F.fns.get(F.root_of(fid), fn)["module"].startswith(CHK) for _, t in mir.calls(fn) if t["callee"].endswith("::can_fit")]
+    if not fits:
+        r.fail("checker: can_fit", "the checker no longer uses the component-wise LoadOps::can_fit anywhere", None)
+    else:
+        r.ok("checker: can_fit", f"{len(fits)} component-wise capacity tests")
+    for root, fid, op, ty, ln in sites:
+        r.fail(f"{util.short_fn(root)}: {op} on {ty}", f"a capacity/consumption verdict uses `{op}` of the PARTIAL order on multi-dimensional loads: it is false whenever the dimensions disagree "
+               "(e.g. [4,2] vs [3,10], and even [4,10] vs [3,10]), so an overload in one dimension is accepted; the component-wise test is `can_fit`", F.loc(fid, ln))
+
+
+def q1_no_self_comparison(F, r):
+    from .common import self_comparison_rule
+    n = self_comparison_rule(F, r, (CHK,), "checker rule")
+    if n < 60:
+        r.fail("comparison floor", f"only {n} comparison sites scanned in the checker")
+
+
 def run(ctx):
     ctx.explanation = (
         "Structural clauses of `the checker rejects injected breaches`: every rule function of the checker (return type Result<(), GenericError|Vec<..>>) is "
         "reachable from CheckerContext::check, each documented breach class maps to a reachable leaf rule, group functions aggregate with "
         "combine_error_results, no Result produced in checker code (incl. the cli entry) is dropped, and every leaf rule has reachable error-producing sites "
-        "(no constant-false guard / dominating early Ok).")
+        "(no constant-false guard / dominating early Ok); capacity verdicts use the component-wise can_fit (A4); no comparison relates a value to itself (Q1).")
     ctx.not_decided = "acceptance of all valid solutions; rejection power per breach (predicates are value-level)."
     ctx.run("C12-A1", "every checker rule is reachable from CheckerContext::check; breach classes map to wired leaves; groups aggregate", a1_all_wired, floor=30)
     ctx.run("C12-A2", "no Result produced inside the checker is dropped", a2_no_dropped, floor=1)
+    ctx.run("C12-A4", "capacity verdicts are component-wise (can_fit), never the partial order of multi-dimensional loads", a4_componentwise_capacity, floor=1)
+    ctx.run("C12-Q1", "no checker comparison relates a value to itself (a constant verdict)", q1_no_self_comparison, floor=1)
     ctx.run("C12-A3", "every leaf rule can fail: its error-producing sites are reachable", a3_rules_can_fail, floor=10)
